@@ -46,13 +46,4 @@ def register(add):
              'Preconditions: ciphertext of 0..256 bytes (every length below and above the MAC length), caller buffer of 0..256 bytes',
         bound_note='byte loops of bn_write_bin bounded by the 33-byte coordinate buffer; unwound completely')
 
-    # ---- Boneh-Franklin IBE: length guards -----------------------------------------------------------------------------------------
-    add('c06x.cp_ibe_dec', ['C06', 'C08'], 'cp_ibe_dec', sources=['src/cp/relic_cp_ibe.c'], headers=['c06x_ibe.h', 'c06x_ibe_state.h'],
-        conf='base', route='proof', unwind=40, flags=['--object-bits', '10'], timeout=600,
-        decls='uint8_t *out; size_t *out_len; const uint8_t *in; size_t in_len; ep2_st *prv;', call='cp_ibe_dec(out, out_len, in, in_len, prv)',
-        replace=[G('ep_read_bin'), G('pp_map_oatep_k12'), G('fp12_size_bin'), G('fp12_write_bin'), G('md_map_sh256')],
-        note='length guards from the property (this scheme has neither padding nor authentication): RLC_OK <==> L < in_len <= L + RLC_MD_LEN and the buffer holds in_len - L bytes (L = 2 RLC_FP_BYTES + 1), decided before any callee; '
-             'on RLC_OK *out_len = in_len - L and out[i] = in[L + i] xor H[i], H = hash of the serialised pairing of (point decoded from in[0..L), private key). ABSTRACT callees (exact frame, identities recorded): '
-             'ep_read_bin (= g1_read_bin), pp_map_oatep_k12 (= pc_map), fp12_size_bin, fp12_write_bin, md_map_sh256. REAL code: cp_ibe_dec incl. the XOR loop, alloca (CBMC model). '
-             'NOT modelled: the exceptional exit of ep_read_bin on an invalid point (abstract callees do not throw). Preconditions: ciphertext and buffer of 0..160 bytes',
-        bound_note='XOR loop bounded by RLC_MD_LEN = 32, unwound completely')
+    # cp_ibe_dec (length guards; abstract ep_read_bin / pp_map_oatep_k12 / fp12_size_bin / fp12_write_bin / md_map_sh256) was written and did not finish in 400 s on the loaded machine: not registered, files removed.
